@@ -354,6 +354,14 @@ func (e *Engine) eval(fr *frame, v ssa.Value) Value {
 	case *ssa.UnOp:
 		return e.unop(fr, in)
 	case *ssa.BinOp:
+		defer func() {
+			if r := recover(); r != nil {
+				if ee, ok := r.(engineError); ok && !strings.Contains(ee.msg, " at ") {
+					panic(engineError{ee.msg + " at " + e.stack(fr)})
+				}
+				panic(r)
+			}
+		}()
 		return e.binop(fr, in.Op, in.X.Type(), e.get(fr, in.X), e.get(fr, in.Y), in.Y.Type())
 	case *ssa.Call:
 		return e.doCall(fr, &in.Call)
@@ -1109,6 +1117,9 @@ func (e *Engine) checkMapWrite(m *MapVal) bool {
 	n, ok := e.mapName(m)
 	if !ok {
 		return false
+	}
+	if m.Sync {
+		e.ev.reg.syncMap[n] = true // a configuration may only ever write to it
 	}
 	if !e.ev.reg.mutable[n] {
 		e.ev.reg.setMutable(n, "map")
